@@ -290,7 +290,20 @@ def run_case(i):
         v = check_emu_log(case, dA)
         if v:
             out["viol"] = ("emu:" + v[0], v[1], {}); return out
-        rB = emu.emu(b, dB, argsB, nofile=nofile)
+        # the second variant is now and then reached through symbolic links: the trace directory
+        # itself is a link, or one loom directory lives elsewhere (per-node scratch space) and is linked in
+        pB = dB
+        if i % 6 == 1:
+            pB = dB + "-link"
+            os.symlink(dB, pB)
+        elif i % 6 == 4:
+            lds = sorted(x for x in os.listdir(dB) if x.startswith("loom."))
+            if lds:
+                os.makedirs(dB + "-parts")
+                shutil.move(os.path.join(dB, lds[0]), os.path.join(dB + "-parts", lds[0]))
+                os.symlink(os.path.join(dB + "-parts", lds[0]), os.path.join(dB, lds[0]))
+        out["symlinked"] = 1 if i % 6 in (1, 4) else 0
+        rB = emu.emu(b, pB, argsB, nofile=nofile)
         if not emu.accepted(rB):
             out["viol"] = ("emulator-rejects:other-enumeration-order", emu.last_error(rB), rB.brief()); return out
         fa, fb = pv.read_bytes(dA), pv.read_bytes(dB)
@@ -305,7 +318,8 @@ def run_case(i):
                 lm = case["looms"][0]
                 obs.write_stream(d, lm["name"], 10, 999999,
                                  obs.thread_meta(999999, 10, lm["name"], cpus=[(0, 0)]), [])
-            rd = emu.run_tool(b, "ovnidump", ["-x", d], nofile=nofile)
+            dd = pB if d is dB else d
+            rd = emu.run_tool(b, "ovnidump", ["-x", dd], nofile=nofile)
             if rd.rc != 0 or rd.sig:
                 out["viol"] = ("dump-fails", "ovnidump rc=%s sig=%s: %s" % (rd.rc, rd.sig, rd.err[-300:]), rd.brief())
                 return out
@@ -317,7 +331,7 @@ def run_case(i):
             elif not we and rd.out != dumpA:
                 out["viol"] = ("dump-enumeration-order-dependence", "ovnidump output differs between directory orders", {})
                 return out
-            rt_ = emu.run_tool(b, "ovnitop", [d], nofile=nofile)
+            rt_ = emu.run_tool(b, "ovnitop", [dd], nofile=nofile)
             if rt_.rc != 0 or rt_.sig:
                 out["viol"] = ("top-fails", "ovnitop rc=%s sig=%s" % (rt_.rc, rt_.sig), rt_.brief()); return out
             v = check_top(case, rt_.out)
@@ -327,6 +341,9 @@ def run_case(i):
     finally:
         shutil.rmtree(dA, ignore_errors=True)
         shutil.rmtree(dB, ignore_errors=True)
+        shutil.rmtree(dB + "-parts", ignore_errors=True)
+        if os.path.islink(dB + "-link"):
+            os.unlink(dB + "-link")
         for p in (dA + ".offsets", dB + ".offsets"):
             if os.path.exists(p):
                 os.unlink(p)
@@ -445,7 +462,7 @@ def main(argv):
               "streams": [{"loom": s["loom"], "tid": s["tid"], "first_events": s["events"][:5]} for s in c0["streams"][:3]]}
     cov = {"evaluations": evaluated + nseq, "distinct_nontrivial": len(shapes) + nseq,
            "rule": "stream sets (1-12 streams, 1-3 looms with clock offsets, many equal corrected clocks inside and "
-                   "across streams, directories created in two orders on tmpfs and ext4) replayed by ovniemu, ovnidump "
+                   "across streams, directories created in two orders on tmpfs and ext4, the second one reached through a symbolic link or holding a linked-in loom directory in a third of the cases) replayed by ovniemu, ovnidump "
                    "-x and ovnitop; heap.h sequences (exhaustive insert/pop orders for small sizes over 3 key values + "
                    "random) under ASan+UBSan with structural invariant walks. distinct_nontrivial = distinct merge "
                    "shapes (streams>=2, looms, number of cross-stream ties>=1) + heap sequences run",
